@@ -123,7 +123,7 @@ class Ctx:
         if v == ["posit_id"]:
             labs = []
             for callee, _, _ in f.calls:
-                if callee in self.addr_labels:
+                if callee in self.addr_labels and re.fullmatch(r"cgi_\w+_address", callee):
                     labs += self.addr_labels[callee]
             labs = sorted(set(labs))
             return ("L", labs) if labs else ("U", "posit_id without an address dispatcher")
@@ -256,15 +256,28 @@ def scan(f, ctx):
         par = ctx.parent_of(f, args[0], pos)
         end = getpos[n + 1] if n + 1 < len(getpos) else f.b1
         acc = set()
-        for k in range(pos, end):
-            if toks[k][1] == "strcmp" and toks[k + 1][1] == "(":
+        idv = [x for x in vals(args[3]) if x != "&"]
+        idv = idv[0] if len(idv) == 1 else None
+        direct = False          # the collected node's own data is read here
+        for k in range(pos + 1, end):
+            if toks[k][0] == "id" and toks[k + 1][1] == "(" and toks[k][1] in ("cgi_read_node", "cgi_read_node_data", "cgi_read_string",
+                                                                                 "cgi_read_int_data", "cgi_read_array"):
                 a, _ = T.split_args(toks, k + 1)
-                for x in a:
-                    xv = vals(x)
-                    if len(xv) == 1 and xv[0].startswith('"') and unq(xv[0]) in DTYPES:
-                        acc.add(unq(xv[0]))
-            if toks[k][0] == "id" and toks[k][1] in VALUE_READERS and toks[k + 1][1] == "(":
-                acc |= VALUE_READERS[toks[k][1]]
+                a0 = vals(a[0]) if a else []
+                if toks[k][1] == "cgi_read_array" or (idv and a0 and a0[0] == idv):
+                    direct = True
+                    if toks[k][1] == "cgi_read_string":
+                        acc.add("C1")
+                    if toks[k][1] == "cgi_read_int_data":
+                        acc |= {"I4", "I8"}
+        if direct:
+            for k in range(pos, end):
+                if toks[k][1] == "strcmp" and toks[k + 1][1] == "(":
+                    a, _ = T.split_args(toks, k + 1)
+                    for x in a:
+                        xv = vals(x)
+                        if len(xv) == 1 and xv[0].startswith('"') and unq(xv[0]) in DTYPES:
+                            acc.add(unq(xv[0]))
         for label in lbs:
             f.rrows.append(("R", par, label, acc))
 
@@ -274,7 +287,10 @@ def labels_of(f, lb):
     if len(lb) == 1 and lb[0].startswith('"'):
         return [("lit", unq(lb[0]))]
     if len(lb) == 1 and lb[0] in f.label_lits:
-        return [("lit", x) for x in sorted(set(f.label_lits[lb[0]]))]
+        alts = sorted(set(f.label_lits[lb[0]]))
+        if len(alts) > 4:                      # a name-derived label (sprintf "%s_t"): one row per label
+            return [("lit", x) for x in alts]
+        return [("lit", "|".join(alts))]
     if len(lb) == 1 and lb[0] in [p[1] for p in f.params]:
         return [("param", lb[0])]
     return None
